@@ -323,23 +323,19 @@ theorem identOf_some (changed : Bool) (v : Val) :
   cases changed <;> rfl
 
 theorem known_nil (c : Case) (hk : known c = []) :
-    C01.known c.base = [] ∧ (c.op = .evolve → cacheMisplaced c.base.run = false) ∧ tupleName c = false := by
+    C01.known c.base = [] ∧ (c.op = .evolve → cacheMisplaced c.base.run = false) := by
   unfold known at hk
-  obtain ⟨h12, h3⟩ := List.append_eq_nil_iff.1 hk
-  obtain ⟨h1, h2⟩ := List.append_eq_nil_iff.1 h12
-  refine ⟨h1, ?_, ?_⟩
-  · intro hop
-    cases hm : cacheMisplaced c.base.run
-    · rfl
-    · simp [hm, hop] at h2
-  · cases ht : tupleName c
-    · rfl
-    · simp [ht] at h3
+  obtain ⟨h1, h2⟩ := List.append_eq_nil_iff.1 hk
+  refine ⟨h1, ?_⟩
+  intro hop
+  cases hm : cacheMisplaced c.base.run
+  · rfl
+  · simp [hm, hop] at h2
 
 /-! ### assoc's loop over the names -/
 
-theorem assocLoop_all_fields (isField : String → Bool) (hd : Bool) (l : List (String × Val))
-    (h : l.all (fun kv => isField kv.1) = true) : assocLoop isField hd l = none := by
+theorem assocLoop_all_fields (isField : String → Bool) (l : List (String × Val))
+    (h : l.all (fun kv => isField kv.1) = true) : assocLoop isField l = none := by
   induction l with
   | nil => rfl
   | cons kv l ih =>
@@ -347,26 +343,21 @@ theorem assocLoop_all_fields (isField : String → Bool) (hd : Bool) (l : List (
     simp only [assocLoop, h.1, if_true]
     exact ih h.2
 
-/-- outside K12a (no non-field name resolves on the fields tuple) the first non-field name raises
-    AttrsAttributeNotFoundError -/
-theorem assocLoop_notFound (isField : String → Bool) (hd : Bool) (l : List (String × Val))
-    (hbad : l.all (fun kv => isField kv.1) = false)
-    (hk : l.any (fun kv => !isField kv.1 && resolvesOnTuple.contains kv.1) = false) :
-    assocLoop isField hd l = some .notFound := by
+/-- the first name that is no field raises AttrsAttributeNotFoundError -/
+theorem assocLoop_notFound (isField : String → Bool) (l : List (String × Val))
+    (hbad : l.all (fun kv => isField kv.1) = false) :
+    assocLoop isField l = some .notFound := by
   induction l with
   | nil => simp at hbad
   | cons kv l ih =>
-    simp only [List.any_cons, Bool.or_eq_false_iff] at hk
     simp only [List.all_cons, Bool.and_eq_false_iff] at hbad
     cases hf : isField kv.1 with
     | true =>
       simp only [assocLoop, hf, if_true]
       rcases hbad with h | h
       · rw [hf] at h; cases h
-      · exact ih h hk.2
-    | false =>
-      have : resolvesOnTuple.contains kv.1 = false := by simpa [hf] using hk.1
-      simp only [assocLoop, hf, this, Bool.false_eq_true, if_false]
+      · exact ih h
+    | false => simp only [assocLoop, hf, Bool.false_eq_true, if_false]
 
 /-! ### validators whose verdict depends on the instance -/
 
